@@ -489,7 +489,67 @@ fn keyless_forgeries_v1(acc: &mut Acc) {
     acc.exhaustive.push(format!("paseto-v1 keyless k1.seal forgeries: 6 ciphertexts >= n x 6 guesses of r x 2 recipients = {total}"));
 }
 
+/// Keyless forgeries of password-wrapped keys: for cost parameters no KDF can run with (zero
+/// iterations / passes / memory / lanes) a back end must refuse, or at any rate stay bound to the
+/// password.  A blob computed from public data alone - for the pre-key a skipped KDF would leave in a
+/// zero-initialised buffer - must not unwrap under any password.
+fn keyless_pbkw<B: Backend>(acc: &mut Acc) {
+    let ver = B::VER;
+    let name = B::NAME;
+    let attacker_key = *b"attacker-chosen-local-key-32byte";
+    let params: Vec<(&str, Vec<u8>)> = if ver.nist() {
+        vec![("iterations=0", 0u32.to_be_bytes().to_vec())]
+    } else {
+        let p = |mem: u64, time: u32, para: u32| -> Vec<u8> {
+            let mut v = mem.to_be_bytes().to_vec();
+            v.extend_from_slice(&time.to_be_bytes());
+            v.extend_from_slice(&para.to_be_bytes());
+            v
+        };
+        vec![("mem=0,time=0,lanes=0", p(0, 0, 0)), ("time=0", p(8192, 0, 1)), ("lanes=0", p(8192, 1, 0)), ("mem=0", p(0, 1, 1)), ("mem=1023", p(1023, 1, 1))]
+    };
+    let prekeys: Vec<(&str, Vec<u8>)> = vec![("32 zero bytes", vec![0; 32]), ("empty", vec![]), ("64 zero bytes", vec![0; 64])];
+    let salt = vec![0x5au8; model::pbkw_salt_len(ver)];
+    let nonce = vec![0xa5u8; model::pbkw_nonce_len(ver)];
+    let mut total = 0u64;
+    for (pname, pb) in &params {
+        for (kname_, prekey) in &prekeys {
+            let text = model::pbkw_wrap_with_prekey(ver, "local", prekey, pb, &salt, &nonce, &attacker_key);
+            for pw in [&b""[..], b"x", b"password"] {
+                let case = json!({"backend": name, "params": pname, "prekey_guess": kname_, "password": String::from_utf8_lossy(pw), "text": text});
+                total += 1;
+                acc.check(&case, |acc| {
+                    acc.eval();
+                    acc.nt(hash_of(&(name, pname, kname_, pw)));
+                    let Ok(w) = text.parse::<PasswordWrappedKey<V<B>, Local>>() else { return Ok(()) };
+                    match w.unwrap(pw) {
+                        Err(_) => Ok(()),
+                        Ok(k) => Err(Fail::new(
+                            format!("C06/{name}/pbkw/keyless-forgery/accepted"),
+                            format!("a password-wrapped key computed from public data alone (parameters {pname}, pre-key guessed as {kname_}) unwrapped under the password {:?} to {}", String::from_utf8_lossy(pw), crate::util::hx(&key_bytes(&k))),
+                        )),
+                    }
+                });
+            }
+        }
+    }
+    acc.class_n("keyless-forgery:pbkw:degenerate-parameters", total);
+}
+
 fn subs_for<B: Backend>(out: &mut Vec<SubCheck>) {
+    out.push(SubCheck::custom(
+        format!("c06.keyless-pbkw/{}", B::NAME),
+        2,
+        keyless_pbkw::<B>,
+        |v: &Value, _acc: &mut Acc| {
+            let text = v.get("text").and_then(|x| x.as_str()).unwrap_or("").to_string();
+            let pw = v.get("password").and_then(|x| x.as_str()).unwrap_or("").as_bytes().to_vec();
+            match text.parse::<PasswordWrappedKey<V<B>, Local>>().and_then(|w| w.unwrap(&pw)) {
+                Err(_) => Ok(()),
+                Ok(_) => Err(Fail::new(format!("C06/{}/pbkw/keyless-forgery/accepted", B::NAME), "a password-wrapped key computed from public data alone unwrapped")),
+            }
+        },
+    ));
     for (kind, secret) in [(0u8, false), (0, true), (1, false), (1, true), (2, false)] {
         let ks = if secret { "secret" } else { "local" };
         let v1 = B::VER == Ver::V1;
@@ -539,7 +599,7 @@ pub fn def() -> PropertyDef {
     PropertyDef {
         id: "C06",
         level: "fault_enumeration",
-        rule: "for each library-produced PIE / PBKW / PKE blob (proptest-sampled keys, passwords, recipients): every single-bit flip of every byte (v1 k1.seal: deterministic spread in quick, all tag/edk/edge bits in thorough), every truncation front and back, 1-3 byte insertions at every field boundary, header rewritten local<->secret and to every other version (same secret bytes), every stretch of the header between two of its dots inserted again 1..3 times, other wrapping key + one-bit neighbours, other / extended / truncated / empty password, other recipient; oracle: unwrap returns Err for every mutant and never a key, unmutated control returns the original key. paseto-v1 additionally: k1.seal blobs computed from public data alone for ciphertexts the RSA operation refuses (c >= n: n, n+1, n+2, midpoint, 2^4096-2, all-ones) and every guess of r in {empty, 0, 1 in one-byte and 512-byte width, c itself}, under two recipients: never a key. PBKW mutants whose parameter field exceeds the budget (10000 iterations / 16 MiB / 3 passes) are skipped and counted. Non-trivial iff the mutant keeps all fixed-width fields; distinct by (blob, class, position)",
+        rule: "for each library-produced PIE / PBKW / PKE blob (proptest-sampled keys, passwords, recipients): every single-bit flip of every byte (v1 k1.seal: deterministic spread in quick, all tag/edk/edge bits in thorough), every truncation front and back, 1-3 byte insertions at every field boundary, header rewritten local<->secret and to every other version (same secret bytes), every stretch of the header between two of its dots inserted again 1..3 times, other wrapping key + one-bit neighbours, other / extended / truncated / empty password, other recipient; oracle: unwrap returns Err for every mutant and never a key, unmutated control returns the original key. paseto-v1 additionally: k1.seal blobs computed from public data alone for ciphertexts the RSA operation refuses (c >= n: n, n+1, n+2, midpoint, 2^4096-2, all-ones) and every guess of r in {empty, 0, 1 in one-byte and 512-byte width, c itself}, under two recipients: never a key. Every back end: password-wrapped keys computed from public data alone for cost parameters no KDF can run with (zero iterations / passes / lanes / memory) and the pre-key a skipped KDF would leave behind (zero bytes), under three passwords: never a key. PBKW mutants whose parameter field exceeds the budget (10000 iterations / 16 MiB / 3 passes) are skipped and counted. Non-trivial iff the mutant keeps all fixed-width fields; distinct by (blob, class, position)",
         assumptions: vec!["PBKW blobs use the cheapest parameters so that every mutant's KDF runs", "mutants are offered through FromStr + unwrap/unseal"],
         subs,
     }
